@@ -101,6 +101,8 @@ def main(pid, argv):
         # handlers of two connections that wait for each other; the second connection arrives while the first handler runs
         for i in range(60 if thorough else 6):
             cases.append(C.meet_case(rng))
+        for i in range(20 if thorough else 3):
+            cases.append(C.deadline_reply_case(rng))
         lines = [c[0] for c in cases]
         metas = [c[1] for c in cases]
     impl = C.run_impl(bins["h_svc"], lines)
